@@ -22,6 +22,7 @@
  Rk field/key     : the parameter classes store every configuration entry under its own name (frozen rename table).
  Rs sorted        : every numpy.interp abscissa is ascending by construction or by a recorded precondition.
  Rn arg roles     : a variable named like a parameter of the callee is handed to that parameter (no exchanged roles).
+ R9 dual stage params: p_max of the booster, flat-max gain = sum of the stages, stage parameters under their own prefix.
 """
 import ast
 from fractions import Fraction
@@ -588,6 +589,14 @@ def rn_arg_roles(ctx):
     ctx.check('Rn.arg-roles', 'argument / parameter name scan', True, 'C04|arg-roles-scan', '', f'{n} argument(s) named like another parameter judged')
 
 
+def r9_dual_stage_params(ctx):
+    """R9: the composite parameters of a dual-stage amplifier (loader _update_dual_stage): p_max of the booster, flat-max gain the
+    sum of the stages, stage parameters under preamp_ / booster_"""
+    from .common import dual_stage_rule
+    dual_stage_rule(ctx, 'R9.dual-stage-params', 'the amplifier would saturate (clamp its gain) at the power limit of the wrong stage')
+    ctx.need('R9.dual-stage-params', 6)
+
+
 from ..memo import rule_for as _memo_rule
 
 RULES_MEMO = ('Rm.memo', _memo_rule('C04', 'the gain, NF or ASE of another operating point would be applied'))
@@ -598,4 +607,4 @@ from ..presence import rule_for as _presence_rule
 RULES_PRESENCE = ('Rp.presence', _presence_rule('C04', 'an amplifier setting of exactly 0 would be replaced by a default'))
 
 RULES = [('R8.dual-stage', r8_dual_stage), ('R1.ase', r1_ase), ('R2.order', r2_order), ('R3.clamp', r3_clamp), ('R4.nf', r4_nf), ('R5.exhaustive', r5_exhaustive),
-         ('R6.band', r6_band), ('R7.gain-profile', r7_gain_profile), RULES_MEMO, RULES_PRESENCE, ('Rk.field-key', rk_field_key), ('Rs.sorted-abscissa', rs_sorted), ('Rn.arg-roles', rn_arg_roles)]
+         ('R6.band', r6_band), ('R7.gain-profile', r7_gain_profile), RULES_MEMO, RULES_PRESENCE, ('Rk.field-key', rk_field_key), ('Rs.sorted-abscissa', rs_sorted), ('Rn.arg-roles', rn_arg_roles), ('R9.dual-stage-params', r9_dual_stage_params)]
